@@ -3,7 +3,8 @@
    statement ClickHouse (as modelled) rejects in file order, or one that is not re-executable right after
    itself makes gen_reexec fail; checks/c18.py then asks first_bad_streams for the witness. *)
 From Coq Require Import List String NArith ZArith Bool Arith Lia.
-From Qryn Require Import model.Migrate proofs.MigrateProofs proofs.MigrateClusterProofs proofs.MigrateConcProofs gen.GenScripts.
+From Qryn Require Import model.Migrate model.MigrateRepair proofs.MigrateProofs proofs.MigrateClusterProofs proofs.MigrateConcProofs
+  proofs.MigrateClassProofs proofs.MigrateSoloProofs proofs.MigrateRepairProofs gen.GenScripts.
 Import ListNotations.
 Open Scope nat_scope.
 
@@ -37,6 +38,44 @@ Lemma gen_cl_reexec : forall c : cfg,
   cl_reexec_streams cat stmt (exec_ch (cloud c)) cat_eqb (cl_scripts gen_scripts gen_oncluster c) (streams_of c) cat0 cat0 = true.
 Proof. intros [[] [] []]; vm_compute; reflexivity. Qed.
 
+(* ---- the same premise WITHOUT computing any re-execution: every statement belongs to a guarded class (a purely
+   syntactic test of the classified statements) and the uninterrupted run is accepted on both tracks; the class
+   lemmas of MigrateClassProofs.v (guarded_idem, exec_ch_wf) do the rest *)
+Lemma gen_guarded : forallb (fun k => forallb guarded (gen_scripts k)) all_streams = true.
+Proof. vm_compute. reflexivity. Qed.
+Lemma gen_guarded_k k : forallb guarded (gen_scripts k) = true.
+Proof.
+  pose proof gen_guarded as G. rewrite forallb_forall in G. apply G. destruct k; cbn; auto 10.
+Qed.
+Lemma gen_track_accepted : forall c : cfg,
+  is_some (cl_track_streams cat stmt (exec_ch (cloud c)) (cl_scripts gen_scripts gen_oncluster c) (streams_of c) cat0 cat0) = true.
+Proof. intros [[] [] []]; vm_compute; reflexivity. Qed.
+Lemma gen_cl_reexec_by_class : forall c : cfg,
+  cl_reexec_streams cat stmt (exec_ch (cloud c)) cat_eqb (cl_scripts gen_scripts gen_oncluster c) (streams_of c) cat0 cat0 = true.
+Proof.
+  intros c. pose proof (gen_track_accepted c) as H.
+  destruct (cl_track_streams cat stmt (exec_ch (cloud c)) (cl_scripts gen_scripts gen_oncluster c) (streams_of c) cat0 cat0) as [[a b]|] eqn:E;
+    [|discriminate].
+  apply (cl_reexec_streams_of_track cat stmt (exec_ch (cloud c)) cat_eqb wf guarded cat_eqb_refl
+           (fun x h h1 => guarded_idem (cloud c) x h h1) (exec_ch_wf (cloud c)) _ _ cat0 cat0 a b wf_cat0 wf_cat0); [|exact E].
+  intros k _. apply cl_scripts_guarded. apply gen_guarded_k.
+Qed.
+
+(* the hypotheses of the class theorem are met by a non-trivial value: the catalogue after the first 18 statements
+   of log.sql (17 objects, no duplicate names) and statement #18, RENAME TABLE IF EXISTS time_series_gin_view TO
+   .._bak, which is accepted there and changes the catalogue *)
+Definition class_example_cat : cat := Eval vm_compute in
+  match prefix cat stmt (exec_ch false) (gen_scripts SLog) 18 cat0 with Some c => c | None => cat0 end.
+Definition class_example_stmt : stmt := Eval vm_compute in nth 18 (gen_scripts SLog) Unclassified.
+Example class_hypotheses_met : exists c1,
+  wf class_example_cat /\ guarded class_example_stmt = true /\ exec_ch false class_example_stmt class_example_cat = Some c1 /\
+  cat_eqb class_example_cat c1 = false /\ (match class_example_stmt with RenameTable true _ _ => true | _ => false end) = true.
+Proof.
+  eexists. split; [|split; [|split; [vm_compute; reflexivity|split; vm_compute; reflexivity]]].
+  - apply (apply_all_wf false (firstn 18 (gen_scripts SLog)) cat0); [exact wf_cat0|vm_compute; reflexivity].
+  - vm_compute. reflexivity.
+Qed.
+
 (* the model the harness is compared with: 1 + n hosts, statements that complete on some hosts only *)
 Definition cl_multi (c : cfg) :=
   multi_run (ccat cat) (cstmt stmt) (cl_exec cat stmt (exec_ch (cloud c))) (cl_pexec cat stmt (exec_ch (cloud c)))
@@ -53,9 +92,9 @@ Lemma gen_converges : forall (c : cfg) (n : nat) (runs : list (list outcome)),
 Proof.
   intros c n runs d r.
   destruct (cl_converges cat stmt (exec_ch (cloud c)) cat_eqb cat_eqb_sound (cl_scripts gen_scripts gen_oncluster c)
-              c cat0 cat0 n runs (gen_cl_reexec c)) as (Hok & (a & b & Htr & Hcat) & Hv).
+              c cat0 cat0 n runs (gen_cl_reexec_by_class c)) as (Hok & (a & b & Htr & Hcat) & Hv).
   destruct (cl_converges cat stmt (exec_ch (cloud c)) cat_eqb cat_eqb_sound (cl_scripts gen_scripts gen_oncluster c)
-              c cat0 cat0 n [] (gen_cl_reexec c)) as (_ & (a' & b' & Htr' & Hcat') & _).
+              c cat0 cat0 n [] (gen_cl_reexec_by_class c)) as (_ & (a' & b' & Htr' & Hcat') & _).
   change (cat0 :: repeat cat0 n) with (hosts0 (S n)) in Hok, Hcat, Hv, Hcat'.
   fold (cl_multi c runs (db0 (ccat cat) (hosts0 (S n)))) in Hok, Hcat, Hv. fold d in Hok, Hcat, Hv.
   change (update (ccat cat) (cstmt stmt) (cl_exec cat stmt (exec_ch (cloud c))) (cl_pexec cat stmt (exec_ch (cloud c)))
@@ -181,6 +220,59 @@ Lemma solo_is_update_examples :
   && solo_same cfg_single 1 (fault_at 38 OAfter) && solo_same cfg_clustered 2 (fault_at 40 (OPartial [false; true]))
   && solo_same cfg_clustered 3 (fault_at 41 OBefore) && solo_same cfg_single 1 (fault_at 1 OBefore) = true.
 Proof. vm_compute. reflexivity. Qed.
+
+(* ... and in general (MigrateSoloProofs.v), instantiated for the model the harness is compared with *)
+Lemma gen_solo_refines : forall (c : cfg) (hs : ccat cat) (os : list outcome),
+  let upd := ch_update gen_scripts gen_oncluster c os (db0 (ccat cat) hs) in
+  solo_run (ccat cat) (cstmt stmt) (cl_exec cat stmt (exec_ch (cloud c))) (cl_pexec cat stmt (exec_ch (cloud c)))
+           (cl_scripts gen_scripts gen_oncluster c) c
+           (calls_bound (cstmt stmt) (cl_scripts gen_scripts gen_oncluster c) c) (proc0 c) os (db0 (ccat cat) hs)
+  = (p_done (r_ok upd), r_db upd, r_log upd).
+Proof. intros c hs os. apply solo_refines_update. Qed.
+
+(* ---- the candidate repair "re-read max(ver) before every script" (model/MigrateRepair.v), on the repository's
+   scripts, single node.  It closes the recorded witness shape: q creates ver and reads version 0, p runs the whole
+   initialisation, q goes on -- q's re-read finds every version current, the merged log is accepted, both return
+   nil, the schema is the expected one.  It does NOT close the finding: let q run alone up to and including its
+   re-read before script 3 (12 calls: it read version 3), then p runs the whole initialisation, then q sends
+   script 3 (DROP TABLE IF EXISTS samples_read) -- the monitor rejects the merged log, both return nil, every
+   later start is a no-op with all versions current, and samples_read is missing for good. *)
+Definition ch_concR (c : cfg) :=
+  conc_runR (ccat cat) (cstmt stmt) (cl_exec cat stmt (exec_ch (cloud c))) (cl_pexec cat stmt (exec_ch (cloud c)))
+            (cl_scripts gen_scripts gen_oncluster c) c.
+Definition rr_sched_stale : list (bool * outcome) := repeat (true, OOk) 2 ++ repeat (false, OOk) 170 ++ repeat (true, OOk) 30.
+Definition reread_closes_stale_start : bool :=
+  let c := cfg_single in
+  let '(p, q, d, l) := ch_concR c rr_sched_stale (procR0 c) (procR0 c) (db0 (ccat cat) (hosts0 1)) in
+  mon_ok (map snd l) && returned_nilR p && returned_nilR q
+  && list_eqb cat_eqb (d_cat d) (d_cat (expected_final gen_scripts gen_oncluster c 1))
+  && forallb (fun k => d_vers d k =? List.length (gen_scripts k)) (streams_of c).
+Definition rr_sched_window : list (bool * outcome) := repeat (true, OOk) 12 ++ repeat (false, OOk) 170 ++ repeat (true, OOk) 30.
+Definition reread_witness : bool :=
+  let c := cfg_single in
+  let '(p, q, d, l) := ch_concR c rr_sched_window (procR0 c) (procR0 c) (db0 (ccat cat) (hosts0 1)) in
+  let r := ch_update gen_scripts gen_oncluster c [] d in
+  negb (mon_ok (map snd l)) && returned_nilR p && returned_nilR q
+  && r_ok r && match filter is_script_event (r_log r) with [] => true | _ => false end
+  && forallb (fun k => d_vers (r_db r) k =? List.length (gen_scripts k)) (streams_of c)
+  && negb (list_eqb cat_eqb (d_cat (r_db r)) (d_cat (expected_final gen_scripts gen_oncluster c 1)))
+  && negb (has "samples_read" (c_objs (hd cat0 (d_cat (r_db r)))))
+  && has "samples_read" (c_objs (hd cat0 (d_cat (expected_final gen_scripts gen_oncluster c 1)))).
+Lemma reread_repair_examined : reread_closes_stale_start = true /\ reread_witness = true.
+Proof. vm_compute. split; reflexivity. Qed.
+
+(* the statements that do harm when a stale starter sends them once more on the finished schema (single node):
+   executed on the final catalogue they change it *)
+Fixpoint with_idx {A} (l : list A) (i : nat) : list (nat * A) := match l with [] => [] | x :: r => (i, x) :: with_idx r (S i) end.
+Definition stale_harmful (c : cfg) : list (N * nat) :=
+  match apply_streams cat stmt (exec_ch (cloud c)) gen_scripts (streams_of c) cat0 with
+  | None => []
+  | Some fin =>
+    flat_map (fun k => flat_map (fun p => match exec_ch (cloud c) (snd p) fin with
+                                           | Some c' => if cat_eqb c' fin then [] else [(stream_k k, fst p)]
+                                           | None => [(stream_k k, fst p)]
+                                           end) (with_idx (gen_scripts k) 0)) (streams_of c)
+  end.
 
 Lemma gen_conc_oracle_accepts : forall (c : cfg) (sched : list (bool * outcome)) (hs : ccat cat) (who : bool),
   opmon gen_sids None (oplog who (map (fun e => (fst e, abs_event gen_sids (snd e)))
